@@ -67,6 +67,8 @@ Feat(tv) == IF tv.g \in {"ptr", "iface"} THEN UNION {Feat(tv.a[i]) : i \in 1..Le
 Class(e) == LET F == Feat(e.orig) IN
             IF ~e.ok THEN (IF "embedded-pointer" \in F THEN "embedded-pointer" ELSE IF "bytes" \in F THEN "bytes-as-string"
                            ELSE IF "named-scalar" \in F THEN "named-scalar" ELSE IF "nil-pointer-element" \in F THEN "nil-pointer-element" ELSE "-")
+            ELSE IF "embedded-pointer" \in F THEN "embedded-pointer"     \* sen.String yields "" for it (C15 F3), read back as nothing
+            ELSE IF "named-scalar" \in F THEN "named-scalar"             \* likewise (C15 F11)
             ELSE IF "nil-pointer-element" \in F THEN "nil-pointer-element"
             ELSE IF "tag-names-other-member" \in F THEN "tag-names-other-member" ELSE "-"
 JudgeRt(e) == (IF e.ok /\ Same(e.res, e.orig) THEN <<>>
